@@ -9,6 +9,8 @@ import (
 	"testing"
 	"time"
 
+	"github.com/goblimey/go-ntrip/rtcm/handler"
+	"github.com/goblimey/go-ntrip/rtcm/pushback"
 	"pgregory.net/rapid"
 	"vh/drive"
 	"vh/enc"
@@ -231,5 +233,80 @@ func genSlow(t *rapid.T) Case {
 var propSlow = stats.Prop(R, "slow-consumer", genSlow, check)
 
 func TestSlowConsumer(t *testing.T) { rapid.Check(t, propSlow) }
+
+// Interleaved: one handler fetches frames from two byte channels in a drawn interleaving (the framing
+// state of a stream belongs to its byte channel, which is passed in explicitly).  Each stream must be cut
+// exactly as it would be alone.
+type InterCase struct {
+	A     gen.Stream `json:"stream_a"`
+	B     gen.Stream `json:"stream_b"`
+	Order []bool     `json:"order"` // true: next fetch from B
+}
+
+func checkInter(c InterCase, o *stats.Obs) error {
+	ins := [2][]byte{c.A.Bytes(), c.B.Bytes()}
+	wants := [2][]gen.Expect{gen.Expected(c.A), gen.Expected(c.B)}
+	CrossCheck(wants[0], ins[0])
+	CrossCheck(wants[1], ins[1])
+	var pbs [2]*pushback.ByteChannel
+	for k := range ins {
+		ch := make(chan byte, len(ins[k])+1)
+		for _, b := range ins[k] {
+			ch <- b
+		}
+		close(ch)
+		pbs[k] = pushback.New(ch)
+	}
+	h := drive.NewHandler(slog.LevelInfo)
+	var got [2][]handler.Message
+	done := [2]bool{}
+	for step := 0; !(done[0] && done[1]) && step < len(ins[0])+len(ins[1])+8; step++ {
+		k := 0
+		if step < len(c.Order) && c.Order[step] {
+			k = 1
+		} else if step >= len(c.Order) {
+			k = step % 2
+		}
+		if done[k] {
+			k = 1 - k
+		}
+		m, _ := h.FetchNextMessageFrame(pbs[k])
+		if m == nil {
+			done[k] = true
+			continue
+		}
+		got[k] = append(got[k], *m)
+	}
+	for k := range ins {
+		res := drive.Result{Msgs: got[k], Closed: true}
+		if key, err := Compare(res, wants[k], ins[k]); err != nil {
+			o.Key = "interleaved/" + key
+			return fmt.Errorf("stream %d of two fetched alternately through one handler (other stream %x): %v", k, ins[1-k], err)
+		}
+	}
+	o.NonTrivial = len(wants[0]) >= 2 && len(wants[1]) >= 2
+	o.Class("two-byte-channels-one-handler")
+	return nil
+}
+
+func genInter(t *rapid.T) InterCase {
+	small := func(label string) gen.Stream {
+		s := gen.CleanStream(t, 6, 60, true)
+		if len(s.Bytes()) > 50000 {
+			s = gen.Stream{Segs: []gen.Segment{{Kind: "junk", Data: []byte("ab")}, {Kind: "valid", Data: gen.ValidFrame(t, 60)}}}
+		}
+		return s
+	}
+	c := InterCase{A: small("a"), B: small("b")}
+	n := rapid.IntRange(0, 24).Draw(t, "orderLen")
+	for i := 0; i < n; i++ {
+		c.Order = append(c.Order, rapid.Bool().Draw(t, "fromB"))
+	}
+	return c
+}
+
+var propInter = stats.Prop(R, "interleaved", genInter, checkInter)
+
+func TestInterleaved(t *testing.T) { rapid.Check(t, propInter) }
 
 func TestReplay(t *testing.T) { R.Replay(t) }
